@@ -27,7 +27,16 @@ PROP = 'C16'
 LEAN_MODULES = ['Femio.Props.C16']
 THEOREMS = ['C16_lb_sound', 'C16_ub_sound', 'C16_root_contains', 'C16_leaf_contains', 'C16_branch_and_bound',
             'C16_knn_terminates', 'C16_knn_refines', 'C16_knn_output', 'C16_hausdorff', 'C16_hop_graph', 'C16_hop_nodal_chain']
-PARTIAL = []
+PARTIAL = [
+    'binary64 rounding of the octree boxes is not modelled: the theorems are over exact rationals, where the eight children '
+    'cover their parent (children_cover / C16_leaf_contains); whether the float tree keeps every point is observed per run '
+    '(diagnostic stream octree:*) and any loss surfaces through the oracle (finding C16-octree-gap)',
+    'C16_hop_graph states what both kernels compute (reachability in the node-element graph through nodes inside the '
+    'ball); the docstring\'s chain form is proved for nodal mode (C16_hop_nodal_chain); for elemental mode kernel and '
+    'docstring differ on hand-made meshes (decided example in Props/C16.lean, findings/C16-hop-elemental-docstring.md)',
+    'internal tree shapes / visiting orders of model and implementation are not compared, only results (the theorems '
+    'show the results do not depend on them)',
+]
 RULE = ('scenes = (style, targets, queries) with integer coordinates; styles: random, clustered, collinear, coplanar, '
         'lattice (many exact ties), duplicates, single-point (zero extent), queries far outside the target box / far '
         'inside, 1..40 targets, 1..12 queries; per scene k in {1,2,3,|T|-1,|T|,|T|+1,|T|+3} x bound in {inf, 0, sqrt(m) '
@@ -569,7 +578,6 @@ def replay(ctx, obj):
     before = len(ctx.failures)
     kind = case.get('kind')
     if kind == 'knn':
-        from femio.graph_processor import GraphProcessorMixin as G  # noqa
         T, Q, k, m = case['targets'], case['queries'], case['k'], case['bound2']
         idx, vec, dist = quiet(mk_points(Q).nearest_neighbor_search_from_nodes_to_nodes, k,
                                distance_upper_bound=bound_of(m), target_fem_data=mk_points(T))
@@ -578,6 +586,10 @@ def replay(ctx, obj):
             r = check_row(T, q, k, m, idx[qi], vec[qi], dist[qi])
             rows.append({'query': q, 'indices': idx[qi].tolist(), 'squared_distances_expected': brute_knn(T, q, k, m),
                          'verdict': r[1] if r else 'ok'})
+            if r is not None and len(ctx.failures) == before:
+                ctx.fail(r[0], f'query {q} (k={k}, bound^2={m}): {r[1]}',
+                         {'kind': 'knn', 'targets': T, 'queries': Q, 'k': k, 'bound2': m, 'via': 'public', 'query_index': qi},
+                         {'indices': idx[qi].tolist()})
         mod = model_knn(ctx, T, Q, [(k, m)])[0] if ctx.driver is not None else None
         return {'fails': any(r['verdict'] != 'ok' for r in rows), 'rows': rows,
                 'model_indices': [[h[0] for h in row] for row in mod] if mod else None}
